@@ -35,6 +35,18 @@ fn main() {
             }
         }
     }
+    if args[0] == "fuzz-campaign" {
+        // check fuzz-campaign <target> <runs> [max_len]: one libFuzzer campaign outside a property check (development
+        // aid; evidence goes to VERIF_OUT_ROOT if set)
+        let target = args.get(1).cloned().unwrap_or_else(|| usage());
+        let runs: u64 = args.get(2).and_then(|s| s.parse().ok()).unwrap_or(100_000);
+        let max_len: usize = args.get(3).and_then(|s| s.parse().ok()).unwrap_or(4096);
+        let seed: u64 = std::env::var("VERIF_SEED").ok().and_then(|s| s.parse().ok()).unwrap_or(0);
+        let check = fvcore::common::Check::new("C08", "exploration", Tier::Thorough, seed);
+        fvcore::fuzzglue::replay_seed_corpus(&check, &target);
+        fvcore::fuzzglue::campaign(&check, &target, runs, max_len);
+        std::process::exit(check.finish());
+    }
     if args[0] == "replay" {
         let Some(path) = args.get(1) else { usage() };
         std::process::exit(replay(path));
